@@ -19,6 +19,7 @@ import (
 	"strconv"
 	"strings"
 	"sync"
+	"sync/atomic"
 	"time"
 
 	"github.com/inbucket/inbucket/v3/pkg/config"
@@ -392,8 +393,22 @@ func sortedCopy(l []string) []string {
 }
 
 // waitEvents waits until the backend has received n deleted events (or a deadline), then a little longer for extras.
+var eventTimeouts int32 // once events are evidently missing, later histories of the run do not wait long again
+
 func (b *backend) waitEvents(n int) []string {
-	deadline := time.Now().Add(3 * time.Second)
+	wait := 3 * time.Second
+	if atomic.LoadInt32(&eventTimeouts) > 3 {
+		wait = 150 * time.Millisecond
+	}
+	deadline := time.Now().Add(wait)
+	defer func() {
+		b.mu.Lock()
+		short := len(b.deleted) < n
+		b.mu.Unlock()
+		if short {
+			atomic.AddInt32(&eventTimeouts, 1)
+		}
+	}()
 	for time.Now().Before(deadline) {
 		b.mu.Lock()
 		k := len(b.deleted)
@@ -579,6 +594,26 @@ func runStoreHistory(c *core.Ctx, m *core.Model, r *rand.Rand, p storeProfile, h
 		c.Compared(1)
 		if strings.Join(sortedCopy(got), ",") != strings.Join(sortedCopy(x.want), ",") {
 			c.Diverge(x.b.kind+"-deleted-events", append(append([]string{}, trace...), "--> multiset of deleted events over the whole history"), strings.Join(sortedCopy(got), ","), strings.Join(sortedCopy(x.want), ","))
+		}
+		// impl-only: the messages that left the store (ever added, not listed at the end) are exactly the announced ones
+		liveNow := map[string]bool{}
+		x.b.st.VisitMailboxes(func(ms []storage.Message) bool {
+			for _, mm := range ms {
+				liveNow[fmt.Sprintf("%s/%d", core.HexS(mm.Mailbox()), x.b.rank(mm.Mailbox(), mm.ID()))] = true
+			}
+			return true
+		})
+		var left []string
+		for box, n := range x.b.count {
+			for r := 1; r <= n; r++ {
+				k := fmt.Sprintf("%s/%d", core.HexS(box), r)
+				if !liveNow[k] {
+					left = append(left, k)
+				}
+			}
+		}
+		if strings.Join(sortedCopy(left), ",") != strings.Join(sortedCopy(got), ",") {
+			c.Fail("deleted-events-exact", append([]string{}, trace...), fmt.Sprintf("%s store: messages that left the store: [%s]; deleted events received: [%s]", x.b.kind, strings.Join(sortedCopy(left), ","), strings.Join(sortedCopy(got), ",")), "")
 		}
 		// impl-only: no message is announced deleted twice
 		seen := map[string]int{}
